@@ -96,7 +96,7 @@ class Job:
         self.traces = 0; self.samples = []; self.mismatches = []; self.exhaustive = False
         self.wall = 0.0; self.note = ""; self.cmd = ""
 
-def toy_replay(binpath, machine, module, cfg, mode, harness_cfg=None, workers=4, timeout=1500, env_extra=None, label=None):
+def toy_replay(binpath, machine, module, cfg, mode, harness_cfg=None, workers=4, timeout=1500, env_extra=None, label=None, emits_all=True):
     """Conformance A: explore the toy model exhaustively with TLC, emitting every transition;
     replay all of them on the real code."""
     j = Job(label or "A:%s:%s:%s:%s" % (machine, cfg, mode, harness_cfg or cfg))
@@ -112,8 +112,9 @@ def toy_replay(binpath, machine, module, cfg, mode, harness_cfg=None, workers=4,
             raise ToolError("TLC failed on %s %s/%s (specification error or timeout):\n%s" % (module, cfg, mode, res["out"][-3000:]))
         j.states = res["distinct"]; j.transitions = res["generated"] - res["initial"]
         nlines = sum(1 for _ in open(emit))
-        if nlines != j.transitions:
+        if emits_all and nlines != j.transitions:
             raise ToolError("%s: emitted %d lines but TLC generated %d transitions" % (j.name, nlines, j.transitions))
+        nemit = nlines
         intent = tmp + "/intent.json"
         with open(emit) as f:
             try:
@@ -128,8 +129,8 @@ def toy_replay(binpath, machine, module, cfg, mode, harness_cfg=None, workers=4,
                                  "transition": json.loads(last) if last.strip() else None})
         else:
             rep = json.loads(r.stdout.strip().split("\n")[-1])
-            if rep["transitions"] != j.transitions:
-                raise ToolError("%s: harness saw %d transitions, TLC emitted %d" % (j.name, rep["transitions"], j.transitions))
+            if rep["transitions"] != nemit:
+                raise ToolError("%s: harness saw %d transitions, TLC emitted %d" % (j.name, rep["transitions"], nemit))
             j.evaluations = rep["evaluations"]; j.nontrivial = rep["distinct_nontrivial"]
             j.samples = rep["samples"][:2]
             for m in rep["mismatches"]:
